@@ -153,6 +153,15 @@ void mzd_verif_header_cache_stats(int *blocks, int *slots_in_use) {
   *blocks       = b;
   *slots_in_use = u;
 }
+
+/* Verification hook: number of headers the pool can hold before mzd_t_malloc falls back to plain malloc. */
+int mzd_verif_header_cache_capacity(void) {
+#if __M4RI_ENABLE_MZD_CACHE
+  return __M4RI_MZD_T_CACHE_MAX * (int)(sizeof(((mzd_t_cache_t *)0)->mzd) / sizeof(mzd_t));
+#else
+  return 0;
+#endif
+}
 #endif  // M4RI_VERIF
 
 mzd_t *mzd_init(rci_t r, rci_t c) {
